@@ -273,6 +273,10 @@ class _Num(Sym):
 
     def __neg__(self):
         if self.kind == 'int':
+            bits = UNSIGNED.get(getattr(self, 'tag', None))
+            if bits is not None:
+                # negating an unsigned NumPy integer scalar wraps (NumPy warns and carries on)
+                return mk_int((-lift(self)[0]) % (1 << bits), self.tag)
             return mk_int(-lift(self)[0])
         return mk_real(-self.e, self.tag)
 
@@ -340,6 +344,7 @@ def _purified_div(a, b):
 
 
 NARROW = {'np.float32': 24, 'np.float16': 11}      # tag -> significand bits
+UNSIGNED = {'np.uint8': 8, 'np.uint16': 16, 'np.uint32': 32, 'np.uint64': 64}   # tag -> width
 
 
 def _is_pow2(v):
